@@ -259,13 +259,91 @@ class Check:
             self._witness_dir_cleaned = True
         os.makedirs(d, exist_ok=True)
         safe = ''.join(c if c.isalnum() or c in '-_' else '_' for c in name)[:80]
-        p = os.path.join(d, f'{safe}-{len(os.listdir(d))}.json')
+        p = os.path.join(d, f'{safe}-{os.getpid()}-{len(os.listdir(d))}.json')
         with open(p, 'w') as f:
             json.dump(scen, f, indent=1)
         return p
 
     def replay(self, scenarios):
         return prepare.replay(scenarios, release=False)
+
+    # ------------------------------------------------------------------ process-level parallelism
+    def fork_map(self, items, fn, procs=None):
+        """run fn(child_check, item) for every item in forked worker processes (the engine and its parsed MIR are shared
+        copy-on-write); everything a child records (obligations, covers, violations, replays, coverage) is merged back."""
+        import multiprocessing as mp
+        procs = procs or min(len(items), max(1, (os.cpu_count() or 2) - 2), 14)
+        if procs <= 1 or len(items) <= 1:
+            for it in items:
+                fn(self, it)
+            return
+        ctx = mp.get_context('fork')
+        parent = self
+
+        def work(it):
+            ck = parent
+            # fresh counters in the child; the parent's objects are only read
+            ck.violations, ck.inconclusive, ck.samples, ck.notes, ck.gaps = [], [], [], [], []
+            ck.known_seen, ck.covers, ck.violated_names = {}, {}, set()
+            ck.obligations = ck.discharged = ck.replays_ok = ck.replays_bad = ck.states = ck.transitions = 0
+            ck.query_s = 0.0
+            ck.cvc5_queries = ck.cvc5_unsat = 0
+            ck._witness_dir_cleaned = True
+            E = ck.E
+            E.executed = {}
+            st0 = dict(E.stats)
+            try:
+                fn(ck, it)
+            except Exception as ex:   # noqa
+                import traceback
+                ck.inconclusive.append(f'worker for {it!r} failed: {ex!r} ' + traceback.format_exc()[-600:])
+            return dict(violations=ck.violations, inconclusive=ck.inconclusive, samples=ck.samples, notes=ck.notes, gaps=ck.gaps,
+                        known_seen=ck.known_seen, covers=ck.covers, obligations=ck.obligations, discharged=ck.discharged,
+                        replays_ok=ck.replays_ok, replays_bad=ck.replays_bad, states=ck.states, transitions=ck.transitions,
+                        query_s=ck.query_s, cvc5=(ck.cvc5_queries, ck.cvc5_unsat),
+                        executed={k: sorted(v) for k, v in E.executed.items()},
+                        stats={k: E.stats[k] - st0.get(k, 0) for k in E.stats})
+        global _FORK_WORK
+        _FORK_WORK = work
+        if not self._witness_dir_cleaned:
+            import shutil
+            shutil.rmtree(os.path.join(prepare.WORK, 'witness', self.pid), ignore_errors=True)
+            self._witness_dir_cleaned = True
+        with ctx.Pool(procs) as pool:
+            outs = pool.map(_fork_call, list(items), chunksize=1)
+        for o in outs:
+            for w in o['violations']:
+                if w[0].split(':')[0] not in self.violated_names or True:
+                    self.violations.append(w)
+            self.inconclusive += o['inconclusive']
+            self.samples += o['samples'][:3]
+            self.notes += o['notes']
+            for g in o['gaps']:
+                if g not in self.gaps:
+                    self.gaps.append(g)
+            for k, v in o['known_seen'].items():
+                self.known_seen.setdefault(k, v)
+            for k, v in o['covers'].items():
+                self.covers[k] = self.covers.get(k, False) or v
+            for k in ('obligations', 'discharged', 'replays_ok', 'replays_bad', 'states', 'transitions'):
+                setattr(self, k, getattr(self, k) + o[k])
+            self.query_s += o['query_s']
+            self.cvc5_queries = getattr(self, 'cvc5_queries', 0) + o['cvc5'][0]
+            self.cvc5_unsat = getattr(self, 'cvc5_unsat', 0) + o['cvc5'][1]
+            for k, v in o['executed'].items():
+                self.E.executed.setdefault(k, set()).update(v)
+            for k, v in o['stats'].items():
+                self.E.stats[k] = self.E.stats.get(k, 0) + v
+        # one violation line per obligation kind is enough
+        seen = set()
+        uniq = []
+        for w in self.violations:
+            key = w[0].split(': ')[0]
+            if key in seen:
+                continue
+            seen.add(key)
+            uniq.append(w)
+        self.violations = uniq
 
     def sample(self, s):
         if len(self.samples) < 12:
@@ -332,6 +410,13 @@ class Check:
                 print('INCONCLUSIVE: ' + str(r))
             return 2
         return 0
+
+
+_FORK_WORK = None
+
+
+def _fork_call(it):
+    return _FORK_WORK(it)
 
 
 def mval(m, e, default=0):
